@@ -40,8 +40,8 @@ STRS = ["", "a", "abc", "5", "Zed", "x y", "é", "2020-01-02", "QUJD"]
 DTS = ["2020-01-02T03:04:05", "2020-01-02T03:04:05+00:00", "2021-12-31T23:59:59.123456+02:00"]
 DTS_Z = ["2020-01-02T03:04:05Z", "1999-01-01T00:00:00.5Z"]
 DATES = ["2020-01-02", "1999-12-31"]
-UUIDS = ["12345678-1234-5678-1234-567812345678"]
-TIMES = ["10:20:30"]
+UUIDS = ["12345678-1234-5678-1234-567812345678", "abcdef01-2345-6789-abcd-ef0123456789"]
+TIMES = ["10:20:30", "23:59:59.123456"]
 B64 = [base64.b64encode(b).decode() for b in (b"", b"A", b"hello", b"\xfb\xff", b"\x00\x01\x02")]
 
 
@@ -321,6 +321,8 @@ def main(arg):
         if isinstance(o, (bytes, bytearray)): return ["y", list(o)]
         if isinstance(o, datetime): return ["dt", o.isoformat()]
         if isinstance(o, date): return ["d", o.isoformat()]
+        if isinstance(o, UUID): return ["u", str(o)]
+        if isinstance(o, time): return ["t", o.isoformat()]
         if isinstance(o, list): return ["l", [canon(x) for x in o]]
         if isinstance(o, dict): return ["m", [[k, canon(x)] for k, x in o.items()]]
         if is_wrapper(type(o)): return ["W", [[k, canon(x)] for k, x in o._data.items()]]
@@ -342,6 +344,10 @@ def main(arg):
             continue
         c = classes[i]
         fs = []
+        try:
+            hints = typing.get_type_hints(c)      # what the converter's registration walk resolves
+        except Exception:
+            hints = {}
         for f in dataclasses.fields(c):
             if f.default is not dataclasses.MISSING:
                 d = ["n"] if f.default is None else ["unknown", repr(f.default)]
@@ -349,7 +355,7 @@ def main(arg):
                 d = ["l", []] if f.default_factory is list else (["m", []] if f.default_factory is dict else ["unknown", "factory"])
             else:
                 d = None
-            fs.append({"name": f.name, "ty": ty(f.type), "default": d})
+            fs.append({"name": f.name, "ty": ty(hints.get(f.name, f.type)), "default": d})
         meta = getattr(c, "Meta", None)
         load = getattr(meta, "key_transform_with_load", None)
         dump = getattr(meta, "key_transform_with_dump", None)
@@ -606,7 +612,7 @@ def main(chk: Check, replay: dict | None = None) -> int:
         if bad:
             chk.broken.append({"kind": "guard", "name": "C03_maps_bijective_partial: generated field names not distinct",
                                "mismatches": len(bad), "first": {"input": bad[0]["input"], "obs": bad[0]["obs"]["classes"]}})
-    chk.decide(cases, codes, {1: "F03a", 2: "F03b", 3: "F03c"},
+    chk.decide(cases, codes, {2: "F03b"},
                "Corr.C03.run: gen_class + run_ops (model) = dataclasses of the generated package + its own "
                "structure_from_dict/unstructure_to_dict")
     return chk.finish(TRUSTED,
